@@ -15,7 +15,7 @@ PROVED = {
 'C08': 'full: all widths, mixed types, four modes; spec characterised and unique',
 'C09': 'scaled paths under the complements of the classes; float→int: native, neg_inf, nearest (every input) and ties-up (exact bias); float→scaled: power exactness, native, complements of three classes; the rounding_integer-rep route correctly rounded whenever 2^k fits the promoted type (one refuted class)',
 'C10': 'full incl. Knuth completeness and Karatsuba (transcribed with scratch memory, proved exact after the repair); float conversions: from-float exact for every finite input, to-float exact when representable and faithful (two-neighbour bracket) below the overflow neighbourhood',
-'C11': 'full: per node and by induction over expression trees (`never_silently_wrong`, now with shift nodes: `<<` exact or signalled, `>>` the floor, run-time / static_integer / constant counts) outside three refuted classes; construction from floating point flags iff the real value is out of range',
+'C11': 'full: per node and by induction over expression trees (`never_silently_wrong`, now with shift nodes: `<<` exact or signalled, `>>` the floor, run-time / static_integer / constant counts) outside the refuted classes; per-node theorems for every narrowest type, multi-word storage (rests on C10) and static ⊗ built-in operands; construction from floating point flags iff the real value is out of range',
 'C12': 'full for nests of any depth and order incl. exponent-changing operations (`scale_transparent`), ++/−−, documentation kernels',
 'C13': 'integers full incl. per-base capacity; scaled contract for signed and unsigned significands; scaled capacity for non-negative exponents (partial)',
 'C14': 'integers full; fractional clauses (never above, < 1 unit of the last digit + proven precision allowance, exact when it fits) for every significand type',
